@@ -16,7 +16,8 @@ theorem C13_facts :
     ∧ Receptor.Facts.life_runner_writes = "WorkStatePending:0;WorkStateFailed:stdoutSize(unitdir);WorkStateRunning:stdoutSize(unitdir);WorkStateFailed:stdoutSize(unitdir);WorkStateSucceeded:stdoutSize(unitdir);WorkStateFailed:stdoutSize(unitdir)"
     ∧ Receptor.Facts.life_start_order = "write(WorkStatePending,0);launch"
     ∧ Receptor.Facts.life_alloc_order = "Lock;defer-Unlock;generateUnitID(false);register"
-    ∧ Receptor.Facts.life_release = "for{err := RemoveAll;force:break;err != nil:attemptsLeft--,retry|return err;break};Lock;delete;return nil" := by decide +kernel
+    ∧ Receptor.Facts.life_release = "for{err := RemoveAll;force:break;err != nil:attemptsLeft--,retry|return err;break};Lock;delete;return nil"
+    ∧ Receptor.Facts.life_runner_mkdir = "creates-no-directory" := by decide +kernel
 
 /-- what the runner's phase says about the stored state -/
 def okFor (r : RPhase) (st : Nat) : Prop :=
